@@ -78,6 +78,7 @@ package telemetry
 // the copied environment, and GO_TELEMETRY_CHILD_UPLOAD=1 after it exactly
 // when uploading was granted; at most one process is started.
 //@ contract startChild
+//@   timeout 60
 //@   requires result != nil
 //@   at call Environ#1: after ghost $nenv = len(result)
 //@   at call Start#1: assert len(cmd.Env) == ite(upload, $nenv+2, $nenv+1) && cmd.Env[$nenv] == "GO_TELEMETRY_CHILD=1" && (upload ==> cmd.Env[$nenv+1] == "GO_TELEMETRY_CHILD_UPLOAD=1")
